@@ -399,7 +399,7 @@ func cmdReqRun(args []string) int {
 	}
 	sc := bufio.NewScanner(f)
 	sc.Buffer(make([]byte, 1<<20), 1<<24)
-	n, cases := 0, 0
+	n, cases, dead := 0, 0, 0
 	for sc.Scan() {
 		line := sc.Text()
 		if strings.TrimSpace(line) == "" {
@@ -419,6 +419,17 @@ func cmdReqRun(args []string) int {
 		}
 		oc := send(c)
 		live := probe()
+		if live {
+			dead = 0
+		} else if dead++; dead >= 5 {
+			// five probes in a row without a correct answer: the node is gone for good; every further request would wait out the
+			// probe's deadlines and tell nothing new. The trace ends here, with the failed probes in it.
+			mrec.mu.Lock()
+			np := len(mrec.panics)
+			mrec.mu.Unlock()
+			emit(gate.Event{"e": "Req", "req": map[string]interface{}(c), "outcome": strings.SplitN(oc, ":", 2)[0], "detail": oc, "live": live, "metric_panics": np})
+			break
+		}
 		mrec.mu.Lock()
 		np := len(mrec.panics)
 		mrec.mu.Unlock()
